@@ -191,7 +191,7 @@ func vfC04Gen(rt *rapid.T) vfC04Case {
 		conn := rapid.SampledFrom([]int{0, 0, 0, 1, 2}).Draw(rt, "conn") % c.NConns
 		ch := rapid.SampledFrom([]int{0, 0, 0, 1, 2}).Draw(rt, "ch") % c.NChans
 		// 15% of the draws are phrases aimed at specific windows; they expand to ordinary steps
-		if ph := rapid.SampledFrom([]int{9, 9, 9, 9, 9, 9, 9, 9, 9, 9, 9, 9, 9, 9, 9, 9, 9, 9, 9, 9, 9, 9, 9, 9, 9, 9, 9, 9, 9, 9, 9, 9, 4, 4, 3, 3, 2, 2, 1, 0}).Draw(rt, "phrase"); ph < 5 {
+		if ph := rapid.SampledFrom([]int{9, 9, 9, 9, 9, 9, 9, 9, 9, 9, 9, 9, 9, 9, 9, 9, 9, 9, 9, 9, 9, 9, 9, 9, 9, 9, 9, 9, 9, 9, 9, 4, 4, 4, 3, 3, 2, 2, 1, 0}).Draw(rt, "phrase"); ph < 5 {
 			parkedSub := vfC04Step{Kind: vfC04SubCmd, Conn: conn, Ch: ch, Mode: rapid.SampledFrom([]int{1, 1, 3, 0}).Draw(rt, "pmode")}
 			if parkedSub.Mode == 0 {
 				parkedSub.GateH, parkedSub.GateP = true, true // parks after the hub registration when the channel allows it
